@@ -1,7 +1,7 @@
 (* FdTable.v -- the operating system as the storage devices see it: the process descriptor table (open hands out the
    LOWEST free number, so a number a device has closed is re-used by whoever opens next), a flat file system, scripts
-   that decide which open / flock / pwrite calls fail or come back short, the log of system calls, and the functions
-   of acquire-core-platform/linux/platform.c on top of it.  MODEL ONLY (proofs: FdTableProofs.v). *)
+   that decide which open / flock / ftruncate / pwrite calls fail or come back short, the log of system calls, and the
+   functions of acquire-core-platform/linux/platform.c on top of it.  MODEL ONLY (proofs: FdTableProofs.v). *)
 From Coq Require Import String.
 From Coq Require Import List Arith NArith Bool.
 From FileIO Require Import Pwrite.
@@ -12,13 +12,30 @@ Definition path := string.
 Inductive owner := Dev | Env.          (* the storage device under test | anybody else in the process *)
 Record fdent := mkEnt { fe_owner : owner; fe_path : path }.
 
-(* answer to one open() call; CFailLock = open succeeds, the flock that file_create issues next fails *)
-Inductive cresp := COk | CFailOpen | CFailLock.
+(* answer to one open() call and to the two calls file_create issues on the new descriptor:
+     CFailOpen    = open fails;
+     CFailLock    = open succeeds, the flock that file_create issues next fails;
+     CFailTrunc e = open and flock succeed, the ftruncate(fd, 0) that file_create issues third fails with errno e
+   (file_is_writable issues only the open: for it CFailLock / CFailTrunc are plain successes) *)
+Inductive cresp := COk | CFailOpen | CFailLock | CFailTrunc (e : errno).
+
+(* two answers that differ at most in the error number of the failing ftruncate *)
+Definition same_cshape (a b : cresp) : Prop :=
+  match a, b with
+  | COk, COk => True
+  | CFailOpen, CFailOpen => True
+  | CFailLock, CFailLock => True
+  | CFailTrunc _, CFailTrunc _ => True
+  | _, _ => False
+  end.
+(* two create scripts that fail the same calls in the same way, possibly with other error numbers *)
+Definition cerrno_variant (cs cs' : nat -> cresp) : Prop := forall k, same_cshape (cs k) (cs' k).
 
 (* system calls issued by the device (fd arguments are the C ints: None = -1), and by the environment *)
 Inductive event :=
 | EOpen (p : path) (r : option nat)
 | ELock (fd : nat) (ok : bool)
+| ETrunc (fd : nat) (ok : bool)                              (* ftruncate(fd, 0) *)
 | EWrite (fd : option nat) (off len : nat) (r : option nat)
 | EClose (fd : option nat) (ok : bool)
 | EEnvOpen (fd : nat)
@@ -120,8 +137,10 @@ Definition os_pwrite (fd : option nat) (o : os) (off : nat) (buf : list byte) : 
      file->fid = open(..O_CREAT..); if (fid < 0) fail;
      if (flock(fid) < 0) { close(fid); fail }
      if (ftruncate(fid, 0) < 0) { close(fid); fail }      -- drops the old contents of an existing file
-   ftruncate is not interposed by the check and is taken to succeed on a descriptor that was just opened read-write
-   (stated assumption); it is not an event of the log. *)
+   Each of the three system calls may fail (create script); the two later failures close the descriptor they were
+   given, return 0 and leave the -- now stale -- number in file->fid.  Which errno the failing ftruncate reports is
+   looked at only to log it (CHECK_POSIX(tmp) with tmp = errno != 0): every error number takes the same path
+   (ErrnoProofs.file_create_ev).  A failed ftruncate leaves the contents of the file alone. *)
 Definition file_create (o : os) (p : path) : os * bool * option nat :=
   let k := nopen o in
   match os_open o p with
@@ -129,7 +148,9 @@ Definition file_create (o : os) (p : path) : os * bool * option nat :=
   | (o1, Some fd) =>
     match cscr o k with
     | CFailLock => (bump_fail (os_close (log o1 (ELock fd false)) (Some fd)), false, Some fd)
-    | _ => let o2 := log o1 (ELock fd true) in
+    | CFailTrunc _ =>
+      (bump_fail (os_close (log (log o1 (ELock fd true)) (ETrunc fd false)) (Some fd)), false, Some fd)
+    | _ => let o2 := log (log o1 (ELock fd true)) (ETrunc fd true) in
            (set_fs o2 (upd (fs o2) p (Some [])), true, Some fd)
     end
   end.
@@ -176,6 +197,7 @@ Definition ledger_step (own : list nat) (e : event) : option (list nat) :=
   | EOpen _ None => Some own
   | EOpen _ (Some fd) => if memb fd own then None else Some (fd :: own)
   | ELock fd _ => if memb fd own then Some own else None
+  | ETrunc fd _ => if memb fd own then Some own else None
   | EWrite None _ _ _ => None
   | EWrite (Some fd) _ _ _ => if memb fd own then Some own else None
   | EClose None _ => None
@@ -202,6 +224,7 @@ Fixpoint count_ev (f : event -> nat) (tr : list event) : nat :=
 Definition targets (e : event) : option (option nat) :=
   match e with
   | ELock fd _ => Some (Some fd)
+  | ETrunc fd _ => Some (Some fd)
   | EWrite fd _ _ _ => Some fd
   | EClose fd _ => Some fd
   | _ => None
